@@ -49,7 +49,7 @@ def run(tier, seed):
     # ---- every transition of the data type on the real type
     edges_total = 0
     samples = []
-    runs = [("Edges_VK_10.cfg", None, 900, 8)]
+    runs = [("Edges_VK_10.cfg", None, 900, 8), ("Edges_VK_full.cfg", None, 900, 8)]
     sim_n = 1500 if tier == "quick" else 20000
     runs.append(("Sim_VK_dense.cfg", "num=%d" % sim_n, 1800, 4))
     for cfg, sim, to, workers in runs:
